@@ -106,6 +106,9 @@ func (fn bindFunctionObject) construct(argumentList []Value) Value {
 	obj := fn.target
 	switch value := obj.value.(type) {
 	case nativeFunctionObject:
+		if value.construct == nil {
+			panic(fn.target.runtime.panicTypeError("%v is not a constructor", objectValue(obj)))
+		}
 		return value.construct(obj, fn.argumentList)
 	case nodeFunctionObject:
 		argumentList = append(fn.argumentList, argumentList...)
